@@ -1,0 +1,14 @@
+//go:build verif
+
+package runtimev2
+
+// VerifStepHook, when set by a verification harness, is called at every
+// evaluated node (kind 0), at the start of every statement of a statement
+// list (kind 1) and at the head of every loop iteration (kind 2).
+var VerifStepHook func(ctx *Task, kind int)
+
+func verifStep(ctx *Task, kind int) {
+	if h := VerifStepHook; h != nil {
+		h(ctx, kind)
+	}
+}
